@@ -985,6 +985,20 @@ func (u *Unit) mapLookup(fx *FX, st *State, m VMap, x *ssa.Lookup) {
 		return
 	}
 	keyT := flatten(key)[0]
+	v, has := u.mapChain(fx, cm, keyT, vt)
+	if x.CommaOk {
+		fx.vals[x] = VTuple{E: []Val{v, VBool{has}}}
+	} else {
+		fx.vals[x] = v
+	}
+}
+
+// mapChain: lookup of key in a concrete (literal) map as nested ite over its entries.
+func (u *Unit) mapChain(fx *FX, cm *cmap, keyT T, vt types.Type) (Val, T) {
+	ck := cm.obj.name + "|" + keyT.S
+	if c, ok := fx.chainCache[ck]; ok {
+		return c.v, c.has
+	}
 	ls := layout(vt)
 	zero := zeroLeaves(vt)
 	res := make([]T, len(ls))
@@ -1009,11 +1023,34 @@ func (u *Unit) mapLookup(fx *FX, st *State, m VMap, x *ssa.Lookup) {
 		res[j] = fx.def("mapv", res[j])
 	}
 	v, _ := unflatten(vt, res)
-	if x.CommaOk {
-		fx.vals[x] = VTuple{E: []Val{v, VBool{fx.def("maphas", has)}}}
-	} else {
-		fx.vals[x] = v
+	h := fx.def("maphas", has)
+	if fx.chainCache == nil {
+		fx.chainCache = map[string]chainRes{}
 	}
+	fx.chainCache[ck] = chainRes{v, h}
+	return v, h
+}
+
+type chainRes struct {
+	v   Val
+	has T
+}
+
+// globalMap returns the concrete literal map stored in a package-level variable.
+func (u *Unit) globalMap(name string) (*cmap, types.Type) {
+	g := u.globalByName(name)
+	if g == nil {
+		return nil, nil
+	}
+	o := u.globalObj(g)
+	if len(o.slots) == 1 {
+		if cr, ok := o.slots[0].(cref); ok && cr.obj != nil {
+			if cm, ok := cr.obj.slots0Map(); ok {
+				return cm, cm.vt
+			}
+		}
+	}
+	return nil, nil
 }
 
 func (u *Unit) mapUpdate(fx *FX, st *State, m VMap, x *ssa.MapUpdate) {
